@@ -371,17 +371,22 @@ class ConcreteCtx:
         if not bool(cond):
             raise Infeasible()
 
+    def _val(self, name):
+        if name not in self.values:
+            raise Unrealisable("the stored model has no value for input %r (recorded by an older version of the harness)" % name)
+        return self.values[name]
+
     def int(self, name, lo=None, hi=None):
-        v = int(self.values[name])
+        v = int(self._val(name))
         if (lo is not None and v < lo) or (hi is not None and v > hi):
             raise Infeasible()
         return v
 
     def bool(self, name):
-        return bool(self.values[name])
+        return bool(self._val(name))
 
     def real(self, name, lo=None, hi=None):
-        return float(self.values[name])
+        return float(self._val(name))
 
     flag = bool
 
@@ -389,7 +394,7 @@ class ConcreteCtx:
         options = list(options)
         if len(options) == 1:
             return options[0]
-        return options[int(self.values[name])]
+        return options[int(self._val(name))]
 
     def note(self, x):
         self.notes.append(x)
